@@ -242,14 +242,50 @@ def fmt(items):
     return ' '.join('%s(%s)' % (i[0], ','.join(str(x) for x in i[1:])) for i in items) or '(nothing)'
 
 
+FLAG_STATES = {}     # 0 / 1 -> the state part of a definite / indefinite compound serializer, however it is represented
+
+
+def ser_state(v):
+    """the part of a compound serializer value that is not the reference to the Serializer (a bool today; an enum, two bools, ..)"""
+    if isinstance(v, Adt) and v.adt.endswith('SeqSerializer'):
+        return tuple(f for f in v.fields if not isinstance(f, Ref))
+    return None
+
+
+def flag_states(prog, ov):
+    """learn how `definite` / `indefinite` is represented: the state of the serializer serialize_seq returns for Some(n) / None"""
+    FLAG_STATES.clear()
+    inst = prog.one(SER + 'serialize_seq')
+    if inst is None:
+        return
+    try:
+        _i, outs, m = l2.run_root(prog, inst, ser_overrides(fail=False))
+    except Abort:
+        return
+    for o in outs:
+        if o.kind != 'return' or l1.result_kind(o.value) != 'Ok' or not o.value.fields:
+            continue
+        items = [i[0] for i in l2.items_of(o.st.events)]
+        stt = ser_state(o.value.fields[0])
+        if stt is None:
+            continue
+        if items == ['ARRAY']:
+            FLAG_STATES[0] = stt
+        elif items == ['BEGIN']:
+            FLAG_STATES[1] = stt
+
+
 def indefinite_of(m, st, v):
     """the `indefinite` flag of a returned / passed SeqSerializer"""
-    if isinstance(v, Adt) and v.adt.endswith('SeqSerializer'):
-        f = v.fields[1]
-        if isinstance(f, Int) and f.is_const():
-            return f.c
-        return repr(f)
-    return None
+    stt = ser_state(v)
+    if stt is None:
+        return None
+    for k, want in FLAG_STATES.items():
+        if repr(want) == repr(stt):
+            return k
+    if len(stt) == 1 and isinstance(stt[0], Int) and stt[0].is_const():
+        return stt[0].c
+    return repr(stt)
 
 
 def check_ser_rows(ctx, rule, label, outs, want_rows, where, m, flag_of=None):
@@ -303,6 +339,9 @@ def check_ser_rows(ctx, rule, label, outs, want_rows, where, m, flag_of=None):
 def t_ser(ctx, prog):
     ctx.rules_run.append('T-SER: every Serializer method, interpreted with opaque values, writes exactly the documented item sequence (incl. definite/indefinite flag of the returned compound serializer); sink failures surface as Err and stop the output')
     ov = ser_overrides(fail=True)
+    flag_states(prog, ov)
+    if sorted(FLAG_STATES) != [0, 1]:
+        ctx.fail_closed('T-SER', 'serialize_seq does not return a definite serializer for Some(n) and an indefinite one for None: %r' % (FLAG_STATES,))
     n = 0
     for name, want in sorted(SER_REF.items()):
         inst = prog.one(SER + name)
@@ -367,7 +406,8 @@ def t_ser(ctx, prog):
             if not (isinstance(tgt, Adt) and tgt.adt.endswith('SeqSerializer')):
                 ctx.fail_closed('T-SER.compound', '%s::%s: unexpected self %r' % (tr, meth, tgt))
                 continue
-            tgt = Adt(tgt.adt, tgt.variant, [tgt.fields[0], Int.const(flagval)])
+            stt = list(FLAG_STATES.get(flagval, (Int.const(flagval),)))
+            tgt = Adt(tgt.adt, tgt.variant, [f if isinstance(f, Ref) else stt.pop(0) for f in tgt.fields] if len([f for f in tgt.fields if not isinstance(f, Ref)]) == len(stt) else [tgt.fields[0], Int.const(flagval)])
             if isinstance(a0, Ref):
                 mm.write_path(st, a0.key, a0.path, tgt)
             else:
